@@ -109,7 +109,7 @@ def dispatch_rule(res, fx):
 def toplevel_rule(res, fx):
     """top-level emitters: unit for the root literal, de Morgan clause, literal/clause passthrough, literal sign"""
     r = res.rule('cnf-toplevel', 'top-level emitters: cnfizeAndAssert asserts the root literal and encodes the formula; deMorganize emits exactly the negated conjunct literals; '
-                 'retrieveClause collects exactly the disjunct literals; the literal of (not^k t) has sign k mod 2', floor=5)
+                 'retrieveClause collects exactly the disjunct literals and isClause recognises exactly what it can collect; the literal of (not^k t) has sign k mod 2', floor=6)
     ca = fx.func('opensmt::Cnfizer::cnfizeAndAssert')
     p = ca['params'][0]['n']
     units = []
@@ -145,6 +145,26 @@ def toplevel_rule(res, fx):
         res.ok(r, 'retrieveClause: positive literal of every disjunct leaf, recursion through nested or')
     else:
         res.bad(r, 'retrieve-clause', fx.loc(rc), 'Cnfizer::retrieveClause no longer collects exactly the literals of the disjuncts')
+    # the recogniser must look as deep as the consumer: retrieveClause descends into nested `or`s and keeps only literals,
+    # so isClause has to descend into nested `or`s too and reject on any non-literal leaf
+    ic = fx.func('opensmt::Cnfizer::isClause')
+    deep = False
+    for lp in (x for x in walk(ic['body']) if x.get('k') == 'loop'):
+        for n in walk(lp['body']):
+            if n.get('k') == 'if' and not n.get('as') and any(is_call(x, 'isOr') for x in walk(n['cond'])):
+                descends = any(x.get('k') == 'call' and mname(x) in ('push', 'push_back', 'isClause') for x in walk(n['then']))
+                els = n.get('else')
+                rejects = els is not None and any(y.get('k') == 'if' and any(is_call(z, 'isLiteral') for z in walk(y['cond'])) and
+                                                  any(z.get('k') == 'ret' and isinstance(see_through(z.get('e')), dict) and see_through(z['e']).get('v') is False for z in walk(y['then']))
+                                                  for y in walk(els))
+                if descends and rejects:
+                    deep = True
+    recursive = any(is_call(x, 'isClause') for x in fwalk(ic))
+    if deep or recursive:
+        res.ok(r, 'isClause descends through nested `or` and rejects any non-literal leaf (as deep as retrieveClause)')
+    else:
+        res.bad(r, 'clause-recogniser-shallow', fx.loc(ic), 'Cnfizer::isClause no longer inspects the members of nested disjunctions, but retrieveClause descends into them and keeps only the literals: '
+                'a non-literal member is silently dropped from the clause and the assertion is strengthened')
     gt = fx.func('opensmt::TermMapper::getTerm')
     sgn = next((prm['n'] for prm in gt['params'] if 'bool' in prm['t']), None)
     assigns = []
